@@ -120,6 +120,24 @@ add("C16", "defgen", "metamorphic property testing (compile twice in separate pr
     "signature equality of the shipped core_defs.py with a fresh compilation of the shipped YAML. Three open findings (combined YAML cannot express "
     "three cross-file constructs) are listed in KNOWN_FINDINGS.txt. Exploration level.", DEF_NOTE, "DESIGN.md 4 C16")
 
+PARSER_NOTE = ("Trusted base: the program generator with its by-construction expectation model and independent natural-layout model (vlib/defgen.py), "
+               "ctypes and gcc 12 as independent layout oracles, Hypothesis.")
+add("C11", "defgen", "property-based testing of the layout validator against an independent natural-layout model (+ctypes, gcc) with exhaustive enumeration of all field sequences of <= 4 fields",
+    "All 22 620 sequences of <= 4 fields over 1/2/4/8-byte scalars and length-1/3 arrays (auto_pad on and off, also as array element), a 512-case "
+    "size-boundary table around 65535, generated layout programs with nested structs/struct arrays/reuse; accepted definitions must be naturally "
+    "aligned with only char padding inserted, user fields unchanged, size = sum of fields = natural sizeof (ctypes, gcc); auto_pad off accepts "
+    "exactly the layouts that need no padding; > 65535 bytes rejected. Exploration level (exhaustive for the enumerated sub-domain).",
+    PARSER_NOTE, "DESIGN.md 4 C11")
+add("C12", "defgen", "property-based testing with single injected conflicts (complete kinds x placements table) and generated conflict-free import graphs",
+    "The complete table of 804 (conflict kind x placement x variant) cases - each must raise the corresponding error class - plus generated "
+    "conflict-free closures over every import-graph shape (chains, trees, diamonds, repeats, alternative spellings, cycles), which must parse and "
+    "register exactly the union of their definitions once. Exploration level.", PARSER_NOTE, "DESIGN.md 4 C12")
+add("C13", "defgen", "metamorphic property testing of the version hash (relocation / noise invariance, single-edit sensitivity, cross-process determinism) + differential comparison of the hash constants in the four outputs + wire capture of Client.send_message",
+    "Generated closures with single edits (rename, id, field rename/type/insert/delete/reorder, signal<->message) must change the digest; relocation, "
+    "import reordering, comments and unrelated definitions must not; two fresh processes with different hash seeds and directories agree; the "
+    "8 hex digits in the Python/C/JavaScript/MATLAB outputs equal the parser's digest; headers sent by a real Client carry type_hash in the "
+    "version field. Exploration level.", PARSER_NOTE + " The client's _sock/_connected are set directly to capture sent headers on a socketpair.", "DESIGN.md 4 C13")
+
 PLANNED = {}
 
 
